@@ -145,6 +145,9 @@ def r_forward_ingest(ctx, db, est, max_items=3, state_assume=None, ctor_args=Non
                                "which add() in a loop (and the sibling impls) never consume [path: %s]" % (kind, site(again[0][1]), pcs))
                     bad = R.exact_state_equal(p, got, want)
                     soft = p.inconclusive is not None
+                    # an unknown condition (unmodelled predicate) inside add() is resolved independently by the impl under
+                    # analysis and by the reference add loop: a difference on such a path is an artefact, not a finding
+                    opaque_fork = any(isinstance(k_, tuple) and k_ and str(k_[0]).startswith("opaque") for _, _, k_ in (p.trace or []))
                     ok = not bad and ended
                     why = ""
                     if bad:
@@ -154,7 +157,8 @@ def r_forward_ingest(ctx, db, est, max_items=3, state_assume=None, ctor_args=Non
                     ctx.ob("R-FORWARD", key, fp, fsite, ok,
                            ("%s with %d item(s): %s [path: %s]" % (kind, k, why, pcs)) if not ok else
                            "%s with %d item(s) equals add() in a loop, leaf by leaf, and exhausts its input [path: %s]" % (kind, k, pcs),
-                           sample={"items": k, "leaves": sorted(want)[:5]}, inc=(not ok and soft and not bad and ended))
+                           sample={"items": k, "leaves": sorted(want)[:5]},
+                           inc=(not ok and ((soft and not bad and ended) or (bool(bad) and opaque_fork))))
                 elif p.status == "panic":
                     # panics of add itself (e.g. arithmetic overflow of counters, add's own assertions) are
                     # not ingestion defects; an assertion of the ingestion impl's own (debug or not) is: the
